@@ -557,7 +557,27 @@ def write_evidence(pid, tier, seed, lean, ops, classes, distinct, nviol, t0, gen
         'property_id': pid, 'tier': tier, 'seed': seed, 'level': 'proof', 'coverage': cov,
         'assumptions': gen.ASSUMPTIONS, 'wall_s': round(time.time() - t0, 2), 'violations': nviol,
     }
-    json.dump(ev, open(os.path.join(ROOT, 'evidence', f'{pid}.json'), 'w'), indent=1)
+    json.dump(_clip(ev), open(os.path.join(ROOT, 'evidence', f'{pid}.json'), 'w'), indent=1)
+
+
+def _clip(o, n=400):
+    """evidence is a summary: long op lines / hex strings are cut (length kept), outcome classes whose names contain whole inputs are merged by
+    their clipped name"""
+    if isinstance(o, str):
+        return o if len(o) <= n else o[:n] + f'...({len(o)} chars)'
+    if isinstance(o, list):
+        return [_clip(x, n) for x in o]
+    if isinstance(o, dict):
+        out = {}
+        for k, v in o.items():
+            k2 = k if not isinstance(k, str) or len(k) <= 120 else k[:120] + '...'
+            v2 = _clip(v, n)
+            if k2 in out and isinstance(out[k2], (int, float)) and isinstance(v2, (int, float)):
+                out[k2] += v2
+            else:
+                out[k2] = v2
+        return out
+    return o
 
 
 if __name__ == '__main__':
